@@ -1,6 +1,6 @@
 SPECIFICATION Spec
 CONSTANTS
-  MaxT = 5
+  MaxT = 4
   MaxG = 3
   Impl = "fixed"
   Gives = TRUE
